@@ -197,6 +197,26 @@ def run(ctx):
             ctx.violations.append(("export of a built circuit panicked (%s with targets %s controls %s): %s" % (g.get("kind", g.get("basis")), g.get("ts", g.get("qs")), g.get("cs", []), r.get("msg", r.get("stderr", ""))[:200]),
                                    {"export_case": c, "impl": {k: r.get(k) for k in ("r", "e", "msg")}}))
     stats["export_never_panics"] = xst
+    # measurement entry points: a list with an out-of-range qubit or with more entries than the register has qubits is an error
+    # (never a result, never a panic, however long the list); every list of distinct in-range qubits is accepted
+    mcases = []
+    for n in (1, 2, 3, 5):
+        good = [[], [0], list(range(n)), list(reversed(range(n)))]
+        bad = [[n], [0, n + 1], list(range(n + 1)), [2**40], [0] * (n + 1), [n - 1] * (n + 2), [0] * 65, [0, n - 1] * 40]
+        for qs, ok in [(q, True) for q in good] + [(q, False) for q in bad]:
+            for b in ("C", "X", "Y"):
+                v = rand_vec(rng, n, "normalised")
+                mcases.append(({"op": "measure", "mode": "measure", "n": n, "v": v, "basis": b, "qs": qs, "draw": float2bits(0.4), "thr": 10}, ok))
+    mres = run_harness([c for c, _ in mcases], nproc=8)
+    mst = {"cases": len(mcases), "accepted": 0, "refused": 0}
+    for (c, ok), r in zip(mcases, mres):
+        if r.get("r") == "ok": mst["accepted"] += 1
+        elif r.get("r") == "err": mst["refused"] += 1
+        if (r.get("r") == "ok") != ok or r.get("r") not in ("ok", "err"):
+            what = ("measure panicked" if r.get("r") in ("panic", "crash") else "measure accepted an invalid qubit list" if not ok else "measure refused a valid qubit list: %s" % r.get("e"))
+            ctx.violations.append(("%s (basis %s, %d qubits, list of %d entries %s)" % (what, c["basis"], c["n"], len(c["qs"]), c["qs"][:6]),
+                                   {"measure_case": c, "expect_ok": ok, "impl": {k: r.get(k) for k in ("r", "e", "msg")}}))
+    stats["measure_arguments"] = mst
     cres = run_harness(ccases, nproc=8)
     cst = {"built": 0, "build_err": 0, "exec_ok": 0, "exec_err": 0}
     for c, r in zip(ccases, cres):
@@ -229,6 +249,10 @@ def run(ctx):
 
 def replay(ctx, path):
     body = json.load(open(path))
+    if body["replay"].get("measure_case"):
+        r = run_harness([body["replay"]["measure_case"]])[0]
+        print(json.dumps({"impl": {k: r.get(k) for k in ("r", "e", "msg")}}))
+        return 0 if (r.get("r") in ("ok", "err") and (r.get("r") == "ok") == body["replay"].get("expect_ok")) else 1
     if body["replay"].get("export_case"):
         r = run_harness([body["replay"]["export_case"]])[0]
         print(json.dumps({"impl": {k: r.get(k) for k in ("r", "e", "msg")}}))
